@@ -48,13 +48,14 @@ def anchors():
 class RefQueue(object):
     """Reference: lazy-deletion heap over (-priority, arrival)."""
 
-    def __init__(self):
+    def __init__(self, keyfn=None):
         self.live = {}        # task -> (negprio, arrival)
         self.heap = []
         self.n = 0
+        self.keyfn = keyfn or (lambda p: -float(p or 0))
 
     def add(self, task, prio):
-        key = (-float(prio or 0), self.n)
+        key = (self.keyfn(prio), self.n)
         self.n += 1
         self.live[task] = key
         heapq.heappush(self.heap, (key, task))
@@ -109,6 +110,15 @@ def dec_task(t):
     return tuple(t) if isinstance(t, list) else t
 
 
+# custom priority_key functions (effective priority: the smallest is served first), all exact - no float in sight
+PKEYS = {'default': None,
+         'exact-neg': (lambda p: -(p or 0)),                 # big ints keep every bit
+         'deadline': (lambda p: p if p is not None else 0),   # earliest deadline first
+         'fraction': (lambda p: -__import__('fractions').Fraction(p or 0, 3))}
+BIG = 2 ** 60
+EXACT_PRIOS = [BIG, BIG + 1, BIG + 2, BIG - 1, 2 ** 53, 2 ** 53 + 1, 0, 1, 1800000000000000001, 1800000000000000002]
+
+
 class Check(object):
     def ops_of(self, h):
         return h['ops']
@@ -119,20 +129,26 @@ class Check(object):
     def gen(self, r, ctx):
         ntasks = r.choice([3, 5, 8, 20, 50])
         tasks = list(range(ntasks // 2)) + ['t%d' % i for i in range(ntasks - ntasks // 2 - 1)] + [[1, 'x']]
+        pkey = r.choice(['default'] * 5 + ['exact-neg', 'deadline', 'fraction'])
+        prios = PRIOS if pkey == 'default' else EXACT_PRIOS
+        # tasks that are falsy or None, and defaults that ARE such tasks
+        dflt = r.choice(['DEFAULT', 'DEFAULT', None, 0, ''])
+        if dflt != 'DEFAULT' or r.random() < 0.2:
+            tasks += [None, 0, '']
         n = r.randint(1, r.choice([10, 40, 150, 400]))
         ops = []
         for _ in range(n):
             k = r.choices(['add', 'add_nop', 'remove', 'pop', 'pop_d', 'peek', 'peek_d', 'len'],
                           [40, 6, 10, 18, 4, 10, 3, 5])[0]
             if k == 'add':
-                ops.append(['add', r.choice(tasks), r.choice(PRIOS)])
+                ops.append(['add', r.choice(tasks), r.choice(prios)])
             elif k == 'add_nop':
                 ops.append(['add', r.choice(tasks)])
             elif k == 'remove':
                 ops.append(['remove', r.choice(tasks)])
             else:
                 ops.append([k])
-        return {'kind': 'pq', 'size_factor': r.choice([1520, 2, 2, 3, 8]), 'ops': ops}
+        return {'kind': 'pq', 'size_factor': r.choice([1520, 2, 2, 3, 8]), 'ops': ops, 'pkey': pkey, 'default': dflt}
 
     def run(self, h, stats=None):
         qu = common.load('queueutils')
@@ -145,8 +161,11 @@ class Check(object):
             lu.BarrelList._size_factor = old
 
     def _run(self, qu, h, stats):
-        qs = {'heap': qu.HeapPriorityQueue(), 'sorted': qu.SortedPriorityQueue()}
-        ref = RefQueue()
+        keyfn = PKEYS[h.get('pkey', 'default')]
+        kw = {'priority_key': keyfn} if keyfn is not None else {}
+        qs = {'heap': qu.HeapPriorityQueue(**kw), 'sorted': qu.SortedPriorityQueue(**kw)}
+        ref = RefQueue(keyfn)
+        dflt = h.get('default', 'DEFAULT')
         for i, op in enumerate(h['ops']):
             name = op[0]
             if name == 'add':
@@ -164,8 +183,8 @@ class Check(object):
             elif name in ('pop_d', 'peek_d'):
                 want = outcome(getattr(ref, name[:-2]))
                 if want[0] == 'exc':
-                    want = ('ok', 'DEFAULT')
-                fn = lambda q: getattr(q, name[:-2])('DEFAULT')
+                    want = ('ok', dflt)
+                fn = lambda q: getattr(q, name[:-2])(dflt)
             elif name == 'len':
                 want = ('ok', len(ref))
                 fn = len
@@ -175,7 +194,7 @@ class Check(object):
                 got = outcome(fn, q)
                 if stats is not None:
                     stats.monitor_evals += 1
-                if got != want:
+                if got != want or type(got[1]) is not type(want[1]):
                     return Failure(i, 'result[%s][%s]' % (name, cls), 'returned %r, reference %r' % (got, want), op)
                 if len(q) != len(ref):
                     return Failure(i, 'len[%s]' % cls, 'len %d, reference %d' % (len(q), len(ref)), op)
@@ -187,7 +206,7 @@ class Check(object):
                 if nl > 1:
                     stats.count('ops_with_multi_sublist_backend')
                 if 2 <= len(ref) <= 60:
-                    keys = sorted(ref.live.values())
+                    keys = sorted(ref.live.values(), key=lambda kv: (float(kv[0]), kv[1]))
                     if keys[0][0] == keys[1][0]:
                         stats.see((h.get('size_factor'), tuple(sorted(map(repr, ref.live.items())))))
                         stats.count('pops_or_ops_with_tie_at_top')
